@@ -72,6 +72,11 @@ Proof. induction l1 as [|x r IH]; cbn; [auto|]. intros [Hx Hr] H2. split; [exact
 Theorem plain_always_replies route auth body : fst (run (shape_plain route auth body)) = Done.
 Proof. apply recover_replies. cbn. auto. Qed.
 
+(* Init is not such a shape: it replies exactly when nothing in it panics *)
+Theorem init_replies_iff_no_panic creator validate save :
+  fst (run (shape_init creator validate save)) = Done <-> creator = false /\ validate = false /\ save = false.
+Proof. destruct creator, validate, save; cbn; split; intros H; try discriminate; try (destruct H as (? & ? & ?); discriminate); auto. Qed.
+
 Theorem batch_always_replies pre txs swaps keys post : fst (run (shape_batch pre txs swaps keys post)) = Done.
 Proof.
   apply recover_replies. change (guarded (Seq ([Leaf (0, 1)%N pre] ++ (items 1 Recover txs ++ items 2 Recover swaps ++ items 3 Recover keys ++ [Leaf (0, 2)%N post])))).
